@@ -70,18 +70,19 @@ Section Build.
 
   Lemma build_deps_spec : forall idx ds adj deg,
     NoDup ds ->
-    let st := fold_left (build_dep ids idx) ds (adj, deg) in
-    (forall di, (di < n)%nat -> fst st di = adj di ++ (if memN (g di) ds then [idx] else [])) /\
-    (forall i, snd st i = if Nat.eqb i idx then deg i + N.of_nat (length (filter (fun d => memN d ids) ds)) else deg i).
+    (forall di, (di < n)%nat -> fst (fold_left (build_dep ids idx) ds (adj, deg)) di = adj di ++ (if memN (g di) ds then [idx] else [])) /\
+    (forall i, snd (fold_left (build_dep ids idx) ds (adj, deg)) i =
+               if Nat.eqb i idx then deg i + N.of_nat (length (filter (fun d => memN d ids) ds)) else deg i).
   Proof.
     intros idx. induction ds as [|d r IH]; intros adj deg Hnd; cbn [fold_left].
     - cbn [memN existsb filter length fst snd]. split.
       + intros di _. rewrite app_nil_r. reflexivity.
       + intros i. destruct (Nat.eqb i idx); [rewrite N.add_0_r|]; reflexivity.
     - inversion Hnd as [|? ? Hd Hr]; subst.
-      unfold build_dep at 2. cbn [fst snd].
       destruct (idx_last d ids 0) as [j|] eqn:E.
-      + destruct (idx_last_some _ _ _ _ E) as (_ & Hj & Hnth). cbn [plus] in Hj. rewrite Nat.sub_0_r in Hnth.
+      + replace (build_dep ids idx (adj, deg) d) with (updf adj j (fun l => l ++ [idx]), updf deg idx (fun x => x + 1))
+          by (unfold build_dep; cbn [fst snd]; rewrite E; reflexivity).
+        destruct (idx_last_some _ _ _ _ E) as (_ & Hj & Hnth). cbn [plus] in Hj. rewrite Nat.sub_0_r in Hnth.
         assert (g j = d) as Hgj by (unfold g, gidx; apply nth_error_nth; exact Hnth).
         assert (memN d ids = true) as Hin by (apply memN_In; eapply nth_error_In; exact Hnth).
         destruct (IH (updf adj j (fun l => l ++ [idx])) (updf deg idx (fun x => x + 1)) Hr) as [I1 I2].
@@ -94,7 +95,8 @@ Section Build.
              exfalso. apply Hne. apply (gidx_inj ids ids_nodup); [exact Hdi|exact Hj|]. fold g. congruence.
         * intros i. rewrite I2. unfold updf. cbn [filter]. rewrite Hin. cbn [length].
           destruct (Nat.eqb i idx); [|reflexivity]. lia.
-      + assert (memN d ids = false) as Hin.
+      + replace (build_dep ids idx (adj, deg) d) with (adj, deg) by (unfold build_dep; rewrite E; reflexivity).
+        assert (memN d ids = false) as Hin.
         { destruct (memN d ids) eqn:M; [|reflexivity]. apply memN_In in M. exfalso. exact (idx_last_none _ _ _ E M). }
         destruct (IH adj deg Hr) as [I1 I2]. split.
         * intros di Hdi. rewrite (I1 di Hdi). unfold memN. cbn [existsb]. fold (memN (g di) r).
@@ -107,9 +109,9 @@ Section Build.
     ids = pre ++ rest ->
     (forall di, (di < n)%nat -> adj di = filter (fun i => memN (g di) (deps (g i))) (seq 0 (length pre))) ->
     (forall i, deg i = if Nat.ltb i (length pre) then in_degree deps ids (g i) else 0) ->
-    let st := build_files deps ids rest (length pre) (adj, deg) in
-    (forall di, (di < n)%nat -> fst st di = filter (fun i => memN (g di) (deps (g i))) (seq 0 n)) /\
-    (forall i, (i < n)%nat -> snd st i = in_degree deps ids (g i)).
+    (forall di, (di < n)%nat -> fst (build_files deps ids rest (length pre) (adj, deg)) di =
+                                filter (fun i => memN (g di) (deps (g i))) (seq 0 n)) /\
+    (forall i, (i < n)%nat -> snd (build_files deps ids rest (length pre) (adj, deg)) i = in_degree deps ids (g i)).
   Proof.
     induction rest as [|f r IH]; intros pre adj deg Hids Hadj Hdeg; cbn [build_files].
     - rewrite app_nil_r in Hids. subst pre. cbn [fst snd]. split; [exact Hadj|].
@@ -149,3 +151,150 @@ Section Build.
     - exact S2.
   Qed.
 End Build.
+
+(** * sorting indices by the key of their file = sorting the files *)
+Lemma map_insert : forall A B K (h : A -> B) (key : B -> K) cmp x l,
+  map h (insert (fun a => key (h a)) cmp x l) = insert key cmp (h x) (map h l).
+Proof.
+  induction l as [|y r IH]; cbn [insert map]; [reflexivity|].
+  destruct (cmp (key (h x)) (key (h y))); cbn [map]; try reflexivity. rewrite IH. reflexivity.
+Qed.
+
+Lemma map_isort : forall A B K (h : A -> B) (key : B -> K) cmp l,
+  map h (isort (fun a => key (h a)) cmp l) = isort key cmp (map h l).
+Proof.
+  induction l as [|x r IH]; cbn [isort map]; [reflexivity|]. rewrite map_insert, IH. reflexivity.
+Qed.
+
+Lemma map_sort_idx : forall metas ids l, map (gidx ids) (sort_idx metas ids l) = sort_meta metas (map (gidx ids) l).
+Proof. intros. unfold sort_idx, sort_meta, ikey. apply (map_isort _ _ _ (gidx ids) (mkey metas)). Qed.
+
+Lemma map_norm_idx : forall metas ids l, map (gidx ids) (norm_idx metas ids l) = norm metas (map (gidx ids) l).
+Proof.
+  intros. unfold norm_idx, norm. rewrite map_length. destruct (1 <? N.of_nat (length l)); [apply map_sort_idx|reflexivity].
+Qed.
+
+Lemma forall_norm_idx : forall metas ids (P : nat -> Prop) l, Forall P l -> Forall P (norm_idx metas ids l).
+Proof.
+  intros metas ids P l H. unfold norm_idx. destruct (1 <? N.of_nat (length l)); [|exact H].
+  unfold sort_idx. rewrite Forall_forall in *. intros x Hx. apply H.
+  eapply Permutation_in; [apply isort_perm|exact Hx].
+Qed.
+
+(** * the relaxation loop and the queue loop simulate their closed-form counterparts *)
+Lemma relax_idx_cons : forall x r deg,
+  relax_idx (x :: r) deg =
+  (fst (relax_idx r (updf deg x (fun d => d - 1))),
+   if updf deg x (fun d => d - 1) x =? 0 then x :: snd (relax_idx r (updf deg x (fun d => d - 1)))
+   else snd (relax_idx r (updf deg x (fun d => d - 1)))).
+Proof. intros. cbn [relax_idx]. destruct (relax_idx r _). reflexivity. Qed.
+
+Section Sim.
+  Variable metas : list fid.
+  Variable ids : list fid.
+  Hypothesis ids_nodup : NoDup ids.
+  Let n := length ids.
+  Let g := gidx ids.
+
+  Definition deg_rel (degI : nat -> N) (deg : fid -> N) : Prop := forall i, (i < n)%nat -> degI i = deg (g i).
+
+  Lemma relax_idx_sim : forall nbrs degI deg,
+    Forall (fun i => (i < n)%nat) nbrs -> deg_rel degI deg ->
+    deg_rel (fst (relax_idx nbrs degI)) (fst (relax (map g nbrs) deg)) /\
+    map g (snd (relax_idx nbrs degI)) = snd (relax (map g nbrs) deg) /\
+    Forall (fun i => (i < n)%nat) (snd (relax_idx nbrs degI)).
+  Proof.
+    induction nbrs as [|x r IH]; intros degI deg Hall Hrel.
+    - cbn [relax_idx relax map fst snd]. split; [exact Hrel|]. split; [reflexivity|constructor].
+    - inversion Hall as [|? ? Hx Hr]; subst. cbn [map]. rewrite relax_idx_cons, relax_cons. cbn [fst snd].
+      assert (deg_rel (updf degI x (fun d => d - 1)) (dec1 deg (g x))) as Hrel1.
+      { intros i Hi. unfold updf, dec1. rewrite (Hrel i Hi).
+        destruct (Nat.eqb_spec i x) as [->|Hne]; [rewrite N.eqb_refl; reflexivity|].
+        destruct (N.eqb_spec (g i) (g x)) as [E|E]; [|reflexivity].
+        exfalso. apply Hne. apply (gidx_inj ids ids_nodup); assumption. }
+      destruct (IH _ _ Hr Hrel1) as (I1 & I2 & I3).
+      split; [exact I1|]. rewrite <- (Hrel1 x Hx).
+      destruct (updf degI x (fun d => d - 1) x =? 0); cbn [map].
+      + split; [rewrite I2; reflexivity|constructor; assumption].
+      + split; assumption.
+  Qed.
+
+  Definition sim_rel (a : option (list fid * (nat -> N))) (b : option (list fid * (fid -> N))) : Prop :=
+    match a, b with
+    | Some (r, dI), Some (r', d) => r = r' /\ deg_rel dI d
+    | None, None => True
+    | _, _ => False
+    end.
+
+  Lemma bfs_idx_sim : forall (adjI : nat -> list nat) (adj : fid -> list fid),
+    (forall i, (i < n)%nat -> map g (adjI i) = adj (g i) /\ Forall (fun j => (j < n)%nat) (adjI i)) ->
+    forall fuel qI degI deg acc,
+      Forall (fun i => (i < n)%nat) qI -> deg_rel degI deg ->
+      sim_rel (bfs_idx metas fuel ids adjI qI degI acc) (bfs metas fuel adj (map g qI) deg acc).
+  Proof.
+    intros adjI adj Hadj. induction fuel as [|k IH]; intros qI degI deg acc Hq Hrel.
+    - destruct qI; cbn [bfs_idx bfs map sim_rel]; [split; [reflexivity|exact Hrel]|exact I].
+    - destruct qI as [|i q]; cbn [bfs_idx bfs map sim_rel]; [split; [reflexivity|exact Hrel]|].
+      inversion Hq as [|? ? Hi Hq']; subst. destruct (Hadj i Hi) as [A1 A2].
+      destruct (relax_idx_sim (adjI i) degI deg A2 Hrel) as (R1 & R2 & R3).
+      rewrite <- A1.
+      destruct (relax_idx (adjI i) degI) as [dI1 nzI]. destruct (relax (map g (adjI i)) deg) as [d1 nz].
+      cbn [fst snd] in R1, R2, R3.
+      replace (map g q ++ norm metas nz) with (map g (q ++ norm_idx metas ids nzI))
+        by (rewrite map_app; unfold g; rewrite map_norm_idx; fold g; rewrite R2; reflexivity).
+      apply IH; [|exact R1].
+      apply Forall_app. split; [exact Hq'|apply forall_norm_idx; exact R3].
+  Qed.
+End Sim.
+
+(** * the literal transcription computes the closed form *)
+Theorem best_order_idx_equiv : forall deps metas ids,
+  NoDup ids -> (forall f, NoDup (deps f)) ->
+  best_order_idx deps metas ids = best_order deps metas ids.
+Proof.
+  intros deps metas ids Hnd Hdeps. unfold best_order_idx, best_order, best_order_parts.
+  destruct (N.of_nat (length ids) <? 2); [rewrite app_nil_r; reflexivity|].
+  destruct (build_idx_spec deps ids Hnd Hdeps) as (B1 & B2 & _ & B4).
+  destruct (build_idx deps ids) as [adjI degI]. cbn [fst snd] in B1, B2, B4.
+  set (n := length ids) in *. set (g := gidx ids) in *.
+  assert (map g (sort_idx metas ids (filter (fun i => degI i =? 0) (seq 0 n))) =
+          sort_meta metas (filter (fun f => in_degree deps ids f =? 0) ids)) as Ez.
+  { unfold g. rewrite map_sort_idx. f_equal.
+    rewrite (filter_ext_in (fun i => degI i =? 0) (fun i => in_degree deps ids (gidx ids i) =? 0)).
+    - rewrite (map_filter_comm _ _ (gidx ids) (fun f => in_degree deps ids f =? 0)). unfold n. rewrite map_gidx_seq. reflexivity.
+    - intros i Hi. apply in_seq in Hi. rewrite B4 by lia. reflexivity. }
+  pose proof (bfs_idx_sim metas ids Hnd adjI (adjacency deps ids)) as Sim.
+  specialize (Sim ltac:(intros i Hi; split; [apply B1; exact Hi|apply B2; exact Hi])).
+  specialize (Sim (2 * n + 2)%nat (sort_idx metas ids (filter (fun i => degI i =? 0) (seq 0 n))) degI (in_degree deps ids) []).
+  specialize (Sim ltac:(unfold sort_idx; apply Forall_forall; intros x Hx;
+                        apply (Permutation_in _ (isort_perm _ _ _ _ _)) in Hx; apply filter_In in Hx;
+                        destruct Hx as [Hx _]; apply in_seq in Hx; fold n; lia)).
+  specialize (Sim ltac:(intros i Hi; apply B4; exact Hi)).
+  fold g in Sim. rewrite Ez in Sim.
+  destruct (bfs_idx metas (2 * n + 2) ids adjI _ degI []) as [[r dI]|];
+  destruct (bfs metas (2 * n + 2) (adjacency deps ids) _ (in_degree deps ids) []) as [[r' d]|];
+  cbn [sim_rel] in Sim; try contradiction; [|reflexivity].
+  destruct Sim as [-> Hrel]. f_equal.
+  destruct (N.of_nat (length r') <? N.of_nat n); [|rewrite app_nil_r; reflexivity].
+  f_equal.
+  rewrite (filter_ext_in (fun i => negb (dI i =? 0)) (fun i => negb (d (gidx ids i) =? 0))).
+  - change (fun i => nth i ids 0) with (gidx ids).
+    rewrite (map_filter_comm _ _ (gidx ids) (fun f => negb (d f =? 0))). unfold n. rewrite map_gidx_seq. reflexivity.
+  - intros i Hi. apply in_seq in Hi. rewrite (Hrel i) by (fold n; lia). reflexivity.
+Qed.
+
+(** ... hence the determinism results hold for the literal transcription *)
+Lemma sort_ids_nodup : forall l, NoDup l -> NoDup (sort_ids l).
+Proof. intros l H. unfold sort_ids. eapply Permutation_NoDup; [apply Permutation_sym, isort_perm|exact H]. Qed.
+
+Theorem best_order_idx_deterministic : forall deps deps' metas metas' ids ids',
+  NoDup ids -> Permutation ids ids' ->
+  (forall f, NoDup (deps f)) -> (forall f, Permutation (deps f) (deps' f)) -> Permutation metas metas' ->
+  best_order_idx deps metas (sort_ids ids) = best_order_idx deps' metas' (sort_ids ids').
+Proof.
+  intros deps deps' metas metas' ids ids' Hnd Hp Hd Hdp Hm.
+  assert (NoDup ids') as Hnd' by (eapply Permutation_NoDup; eassumption).
+  assert (forall f, NoDup (deps' f)) as Hd' by (intros f; eapply Permutation_NoDup; [apply Hdp|apply Hd]).
+  rewrite !best_order_idx_equiv by (try apply sort_ids_nodup; assumption).
+  apply best_order_sorted_deterministic; assumption.
+Qed.
